@@ -24,6 +24,7 @@ def trace_cfg_etcd(invariants):
 
 
 def validate_etcd(work, tracefile, invariants, name="tetcd"):
+    corrupt_for_selftest([tracefile], "TraceEtcd.tla")
     n = count_lines(tracefile)
     r = tlc(work, "TraceEtcd.tla", trace_cfg_etcd(invariants), workers=1, timeout=3600, env={"KB_TRACE": tracefile}, name=name)
     res = dict(accepted=False, violated=None, line=None, events=n, file=tracefile)
